@@ -5,7 +5,8 @@ import Oracle.Util
 
    sched <rf|rl> <maxBlocks> <seg>/<seg>/…     seg ::= <start>-<stop>=<blk>;<blk>;…   blk ::= <low>:<high>:<ts>,<ts>,…
         ("-" = no segment request at all; a segment without blocks is "<start>-<stop>="; a block without
-        records is "<low>:<high>:").  Block ids and record ids are assigned in order of appearance.
+        records is "<low>:<high>:").  Block ids and record ids are assigned in order of appearance.  Times are
+        decimal uint64 (0 … 18446744073709551615), so `Props.C05.TsFit` holds of every op line.
         → "eof [id@ts,id@ts|…|…]" = the released batches (or "stuck […]" when EOF is not reached within
         fuelBound Fetch calls — since the repair of fetchRRCs (`lastBlocks`) the model never answers "stuck" for
         uint64 timestamps, Props.C05.fetch_always_reaches_eof; the Go side still prints it when the real searcher
@@ -33,11 +34,21 @@ def parseMode (s : String) : Option Mode :=
 def natList? (s : String) : Option (List Nat) :=
   if s.isEmpty then some [] else (s.splitOn ",").mapM (·.toNat?)
 
+/-- a timestamp: a decimal uint64 (at most 20 digits; the Go side parses with strconv.ParseUint) -/
+def u64? (s : String) : Option Nat :=
+  if s.isEmpty || s.length > 20 || !s.all Char.isDigit then none else
+  match s.toNat? with
+  | some n => if n ≤ maxU64 then some n else none
+  | none => none
+
+def u64List? (s : String) : Option (List Nat) :=
+  if s.isEmpty then some [] else (s.splitOn ",").mapM u64?
+
 /-- "<low>:<high>:<ts,…>" -/
 def parseBlockRaw (s : String) : Option (Nat × Nat × List Nat) :=
   match s.splitOn ":" with
   | [l, h, ts] =>
-    match l.toNat?, h.toNat?, natList? ts with
+    match u64? l, u64? h, u64List? ts with
     | some l, some h, some ts => some (l, h, ts)
     | _, _, _ => none
   | _ => none
@@ -47,7 +58,7 @@ def parseSegRaw (s : String) : Option (Nat × Nat × List (Nat × Nat × List Na
   | [rng, bl] =>
     match rng.splitOn "-" with
     | [a, b] =>
-      match a.toNat?, b.toNat? with
+      match u64? a, u64? b with
       | some a, some b =>
         if bl.isEmpty then some (a, b, [])
         else match (bl.splitOn ";").mapM parseBlockRaw with
